@@ -142,6 +142,7 @@ M_T = np.array([[0.0, 1.0, 0.5], [-2.0, 0.25, 0.0], [0.75, -1.0, 0.125]])
 Y_A = np.array([0.5, -1.0, 0.25])
 Y_B = np.array([-0.75, 0.3, 1.5])
 T_A, T_B = 0.0, 1.75
+T_C = 2.5e-9          # a quarter period of the fast term of the right-hand side away from T_A: 'another time', however close
 
 
 AMP = 2.0       # a constant of the system, passed by keyword on every request; the functions' own default (1.0) is wrong on purpose: a constant that does
@@ -150,11 +151,11 @@ AMP = 2.0       # a constant of the system, passed by keyword on every request; 
 
 def user_rhs(t, y, amp=1.0, **kw):
     # time dependent, non-symmetric Jacobian:  f = amp ((1 + t) M y + sin(t) y^2)
-    return amp * ((1 + t) * (M_T @ y) + np.sin(t) * y * y)
+    return amp * ((1 + t) * (M_T @ y) + np.sin(t) * y * y + np.cos(2 * np.pi * 1e8 * t) * y)
 
 
 def analytic_jac(t, y, amp=AMP):
-    return amp * ((1 + t) * M_T + np.diag(2 * np.sin(t) * y))
+    return amp * ((1 + t) * M_T + np.diag(2 * np.sin(t) * y) + np.cos(2 * np.pi * 1e8 * t) * np.eye(3))
 
 
 def J1(t, y, amp=1.0, **kw):
@@ -179,7 +180,7 @@ def J3(t, y, amp=1.0, **kw):
     return analytic_jac(t, y, amp) + 55.0
 
 
-OPS = [("jac", "A", "A"), ("jac", "B", "A"), ("jac", "A", "B"), ("jac", "B", "B"), ("hook", 1), ("hook", 2), ("unhook",), ("assign", 1), ("call",),
+OPS = [("jac", "A", "A"), ("jac", "B", "A"), ("jac", "A", "B"), ("jac", "B", "B"), ("jac", "C", "A"), ("jac", "C", "B"), ("hook", 1), ("hook", 2), ("unhook",), ("assign", 1), ("call",),
        ("setattr",), ("delattr",)]
 
 
@@ -218,7 +219,7 @@ def step16(cfg, hist):
         last = i == len(hist) - 1
         try:
             if op[0] == "jac":
-                t = T_A if op[1] == "A" else T_B
+                t = T_A if op[1] == "A" else (T_B if op[1] == "B" else T_C)
                 y = Y_A if op[2] == "A" else Y_B
                 requests += 1
                 got = np.asarray(rhs.jac(t, y, amp=AMP))
